@@ -89,11 +89,13 @@ def gen_operands(kinds, cfg, rng, depth=0):
             raw += b
             args.append(int.from_bytes(b, bo, signed=(sign == 's')))
         elif k == 'ULEB':
-            v = rng.choice([0, 1, 127, 128, 300, 1 << 20, rng.randrange(0, 1 << 35)])
+            v = rng.choice([0, 1, 127, 128, 300, 1 << 20, rng.randrange(0, 1 << 35), (1 << 63), (1 << 64) - 1, rng.randrange(0, 1 << 64)])
             raw += _uleb(v)
             args.append(v)
         elif k == 'SLEB':
-            v = rng.choice([0, 1, -1, 63, 64, -64, -65, 300, -300, rng.randrange(-(1 << 34), 1 << 34)])
+            # every width / sign boundary up to the 64-bit limits (INT64_MIN takes ten groups)
+            v = rng.choice([0, 1, -1, 63, 64, -64, -65, 300, -300, rng.randrange(-(1 << 34), 1 << 34),
+                            (1 << 63) - 1, -(1 << 63), -(1 << 62) - 1, (1 << 62), -(1 << 56) - 1, rng.randrange(-(1 << 63), 1 << 63)])
             raw += _sleb(v)
             args.append(v)
         elif k in ('ADDR', 'OFF'):
